@@ -305,7 +305,8 @@ func (e *Engine) load(st *State, a *Addr) Val {
 		}
 		// the pointer may be the address of a struct field whose address was taken in this function
 		for _, c := range e.interiorCands(bt) {
-			base = ite("(= (pkind "+a.Ref+") "+fmt.Sprint(c.id)+")", sel(e.heapIn(st, c.heap, c.sort), "("+c.owner+" "+a.Ref+")"), base)
+			inner, _ := e.applyPath(sel(e.heapIn(st, c.heap, c.sort), "("+c.owner+" "+a.Ref+")"), c.baseT, c.path)
+			base = ite("(= (pkind "+a.Ref+") "+fmt.Sprint(c.id)+")", inner, base)
 		}
 	}
 	cur, _ := e.applyPath(base, bt, a.Path)
@@ -393,7 +394,8 @@ func (e *Engine) storeTo(st *State, a *Addr, v Val) {
 			for _, c := range cands {
 				cond := "(= (pkind " + a.Ref + ") " + fmt.Sprint(c.id) + ")"
 				h := e.heapIn(st, c.heap, c.sort)
-				e.setHeapIn(st, c.heap, c.sort, ite(cond, store(h, "("+c.owner+" "+a.Ref+")", full), h))
+				own := "(" + c.owner + " " + a.Ref + ")"
+				e.setHeapIn(st, c.heap, c.sort, ite(cond, store(h, own, e.updatePath(sel(h, own), c.baseT, c.path, full)), h))
 				isPlain = and(isPlain, not(cond))
 			}
 			if u, ok := isStruct(bt); ok {
@@ -447,13 +449,7 @@ func (e *Engine) ptrTerm(v Val) string {
 		e.sc.declareFun("elemptr", []string{"Int", "Int"}, "Int")
 		return "(elemptr " + a.Ref + " " + a.Idx + ")"
 	case aField:
-		if len(a.Path) == 0 {
-			return e.interiorPtr(a)
-		}
-		e.note("interior pointer into a nested struct field used as data (abstracted)")
-		f := "fieldptr_" + sanitize(a.Heap)
-		e.sc.declareFun(f, []string{"Int"}, "Int")
-		return "(" + f + " " + a.Ref + ")"
+		return e.interiorPtr(a)
 	}
 	e.note("address of local cell used as data (abstracted)")
 	return e.sc.declareConst("addr", "Int")
@@ -755,6 +751,22 @@ func (e *Engine) autoInvariants(fc *fnCtx, li *loopInfo, sIn, head *State, mod m
 			}
 		case "rangeint.iter":
 			e.assume(head, "(>= "+head.Cells[k].T+" 0)")
+			// iter < bound at the loop head (= the body): the body is entered from the preheader only when 0 < bound and
+			// from the increment block only when iter+1 < bound
+			for _, p := range li.header.Preds {
+				if !li.body[p] {
+					continue
+				}
+				if iff, ok := p.Instrs[len(p.Instrs)-1].(*ssa.If); ok {
+					if cmp, ok := iff.Cond.(*ssa.BinOp); ok && cmp.Op == token.LSS && p.Succs[0] == li.header {
+						if lv, ok := fc.regs[cmp.Y]; ok && lv.T != "" && !li.body[valueBlock(cmp.Y)] {
+							e.assume(head, "(< "+head.Cells[k].T+" "+lv.T+")")
+						} else if c, ok := cmp.Y.(*ssa.Const); ok {
+							e.assume(head, "(< "+head.Cells[k].T+" "+e.constVal(c).T+")")
+						}
+					}
+				}
+			}
 		}
 	}
 }
@@ -1072,29 +1084,39 @@ func (e *Engine) convertStruct(v Val, from, to types.Type) Val {
 }
 
 type interiorCand struct {
-	heap, sort, owner string
-	id                int
-	fieldT            types.Type
+	heap, sort, owner, fn string
+	id                    int
+	fieldT                types.Type // type of the addressed location
+	baseT                 types.Type // type stored in the field heap (before path)
+	path                  []pathStep
 }
 
-// interiorPtr returns the pointer value of the address of a struct field (p.f): an injective function of p,
-// tagged (pkind) with the field heap it points into.
+// interiorPtr returns the pointer value of the address of a struct field (p.f or p.f.g...): an injective function
+// of p, tagged (pkind) with the location it points into.
 func (e *Engine) interiorPtr(a *Addr) string {
 	if e.interior == nil {
 		e.interior = map[string]*interiorCand{}
 	}
-	c, ok := e.interior[a.Heap]
-	f := "fieldptr_" + sanitize(a.Heap)
+	key := a.Heap
+	for _, ps := range a.Path {
+		key += fmt.Sprintf(".%d", ps.Field)
+		if ps.Field < 0 {
+			e.note("interior pointer to an array element inside a struct field (abstracted)")
+			return e.sc.declareConst("addr", "Int")
+		}
+	}
+	c, ok := e.interior[key]
 	if !ok {
-		c = &interiorCand{heap: a.Heap, sort: a.HSort, owner: "owner_" + sanitize(a.Heap), id: len(e.interior) + 1, fieldT: a.ElemT}
-		e.interior[a.Heap] = c
+		f := "fieldptr_" + sanitize(key)
+		c = &interiorCand{heap: a.Heap, sort: a.HSort, owner: "owner_" + sanitize(key), fn: f, id: len(e.interior) + 1, fieldT: a.ElemT, baseT: a.baseType(), path: a.Path}
+		e.interior[key] = c
 		e.sc.declareFun(f, []string{"Int"}, "Int")
 		e.sc.declareFun(c.owner, []string{"Int"}, "Int")
 		e.sc.declareFun("pkind", []string{"Int"}, "Int")
 		e.sc.assert(fmt.Sprintf("(forall ((r Int)) (! (and (= (%s (%s r)) r) (= (pkind (%s r)) %d) (not (= (%s r) 0))) :pattern ((%s r))))", c.owner, f, f, c.id, f, f))
-		e.note("address of struct field " + a.Heap + " taken: dereferences of pointers of that type consider it")
+		e.note("address of struct field " + key + " taken: dereferences of pointers of that type consider it")
 	}
-	return "(" + f + " " + a.Ref + ")"
+	return "(" + c.fn + " " + a.Ref + ")"
 }
 
 func (e *Engine) interiorCands(t types.Type) []*interiorCand {
@@ -1106,4 +1128,11 @@ func (e *Engine) interiorCands(t types.Type) []*interiorCand {
 		}
 	}
 	return out
+}
+
+func valueBlock(v ssa.Value) *ssa.BasicBlock {
+	if ins, ok := v.(ssa.Instruction); ok {
+		return ins.Block()
+	}
+	return nil
 }
